@@ -55,7 +55,11 @@ def _cases(draw):
     return {"start": iso(t0), "policy": policy, "sensors": sensors, "targets": targets, "dt": draw(st.sampled_from([30, 60])),
             "n": draw(st.integers(2, 4)), "pos_std": draw(st.sampled_from([1e-3, 1.0, 30.0])),
             "schedules": [draw(st.lists(st.integers(0, 23), min_size=4, max_size=12)) for _ in range(2)],
-            "seed": draw(st.integers(0, 10**6)), "background": draw(st.booleans())}
+            "seed": draw(st.integers(0, 10**6)), "background": draw(st.booleans()), "save_every": draw(st.sampled_from([1, 1, 2, 3])),
+            # low orbits: the initial estimate error is degrees as seen from the site, so narrow fields of view miss at first and
+            # observe once another sensor's observation has pulled the estimate in (a miss and an observation of one pair in
+            # consecutive steps)
+            "r_tgt": draw(st.sampled_from([R_TGT, R_TGT, 8000.0]))}
 
 
 def _config(c):
@@ -68,7 +72,7 @@ def _config(c):
                                       # radars make the UKF covariance update lose positive definiteness (outside C08)
                                       covariance=[[1e-6, 0, 0, 0], [0, 1e-6, 0, 0], [0, 0, 1.0, 0], [0, 0, 0, 1e-6]]))
     for j, t in enumerate(c["targets"]):
-        st_ = kit.circular_state_over(SITE[0], SITE[1], t0, R_TGT + 300.0 * j, heading_deg=t["head"], offset_deg=(t["dlat"], t["dlon"]))
+        st_ = kit.circular_state_over(SITE[0], SITE[1], t0, c.get("r_tgt", R_TGT) + 300.0 * j, heading_deg=t["head"], offset_deg=(t["dlat"], t["dlon"]))
         tgts.append(kit.eci_target(11001 + j, st_))
     # an unplanned impulse on the truth (the estimate keeps following the old orbit) is the realistic route to a tasked
     # attempt that misses: predicted visible on the estimate, truth outside a narrow field of view
@@ -127,25 +131,33 @@ def _run(c, schedule, rec=None):
             return _orig(prior, now)
 
         eng.assess = assess
+        pending = []
+        save_every = c.get("save_every", 1)
         for k in range(1, c["n"] + 1):
             sc.stepForward()
-            sc.saveDatabaseOutput()
             when = t0 + timedelta(seconds=k * c["dt"])
             obs = sorted((o.sensor_id, o.target_id, round(float(o.julian_date), 9), tuple(float(x) for x in o.measurement_states)) for o in eng.observations)
             miss = sorted((m.sensor_id, m.target_id, str(m.reason)) for m in eng.missed_observations)
             jd = float(sc.clock.julian_date_epoch)
-            db_obs = sorted(kit.raw_sql("select sensor_id, target_id, azimuth_rad, elevation_rad, range_km, range_rate_km_p_sec from observations where abs(julian_date - ?) < 1e-8", (jd,)))
-            db_miss = sorted(kit.raw_sql("select sensor_id, target_id, reason from missed_observations where abs(julian_date - ?) < 1e-8", (jd,)))
-            db_task = sorted(kit.raw_sql("select target_id, sensor_id, visibility, reward, decision from tasks where abs(julian_date - ?) < 1e-8", (jd,)))
             snaps.append({
                 "k": k, "when": when, "decision": eng.decision_matrix.copy(), "visibility": eng.visibility_matrix.copy(), "reward": eng.reward_matrix.copy(),
                 "targets": list(eng.target_list), "sensors": list(eng.sensor_list), "obs": obs, "miss": miss,
                 "sensor_state": {sid: (np.array(s.sensors.boresight, dtype=float), float(s.sensors.time_last_tasked)) for sid, s in sc.sensor_agents.items()},
                 "est": {tid: (np.array(e.eci_state, dtype=float), np.array(e.nominal_filter.est_p, dtype=float)) for tid, e in sc.estimate_agents.items()},
                 "pre": {"est": dict(pre["est"]), "sen": dict(pre["sen"])},
-                "db": (db_obs, db_miss, db_task),
+                "db": None, "output_epoch": (k % save_every == 0 or k == c["n"]),
                 "time": float(sc.clock.time),
             })
+            # the output cadence may be a multiple of the step: the records of the steps in between wait in the engine
+            pending.append((len(snaps) - 1, jd))
+            if k % save_every == 0 or k == c["n"]:
+                sc.saveDatabaseOutput()
+                for idx, jd_k in pending:
+                    db_obs = sorted(kit.raw_sql("select sensor_id, target_id, azimuth_rad, elevation_rad, range_km, range_rate_km_p_sec from observations where abs(julian_date - ?) < 1e-8", (jd_k,)))
+                    db_miss = sorted(kit.raw_sql("select sensor_id, target_id, reason from missed_observations where abs(julian_date - ?) < 1e-8", (jd_k,)))
+                    db_task = sorted(kit.raw_sql("select target_id, sensor_id, visibility, reward, decision from tasks where abs(julian_date - ?) < 1e-8", (jd_k,)))
+                    snaps[idx]["db"] = (db_obs, db_miss, db_task)
+                pending = []
         return snaps
     finally:
         raydouble.set_scheduler(None)
@@ -183,11 +195,13 @@ def _bookkeeping(c, snaps, rec):
                 raise Violation("observation_duplicated", f"step {s['k']}: {n_o} observations of target {pair[1]} by sensor {pair[0]} in one step (policy {c['policy']}, decision {d.astype(int).tolist()})")
         # stored rows of this step equal the engine's records
         db_obs, db_miss, db_task = s["db"]
+        rec.label("stored_with_later_output_epoch" if not s.get("output_epoch", True) else "stored_at_own_epoch")
         if sorted((r[0], r[1]) for r in db_obs) != sorted((o[0], o[1]) for o in s["obs"]):
             raise Violation("stored_observations", f"step {s['k']}: stored observation rows {[(r[0], r[1]) for r in db_obs]} != engine observations {[(o[0], o[1]) for o in s['obs']]}")
         if sorted((r[0], r[1]) for r in db_miss) != sorted((m[0], m[1]) for m in s["miss"]):
             raise Violation("stored_misses", f"step {s['k']}: stored miss rows {[(r[0], r[1]) for r in db_miss]} != engine misses {[(m[0], m[1]) for m in s['miss']]}")
-        if len(db_task) != d.size or sum(1 for r in db_task if r[4]) != int(d.sum()):
+        # (task rows are written for output epochs only; observations and misses of the steps in between are kept and written later)
+        if s.get("output_epoch", True) and (len(db_task) != d.size or sum(1 for r in db_task if r[4]) != int(d.sum())):
             raise Violation("stored_tasks", f"step {s['k']}: {len(db_task)} task rows with {sum(1 for r in db_task if r[4])} decisions for a {d.shape} decision matrix with {int(d.sum())} taskings")
         # (ii) pointing state
         for j, sid in enumerate(sl):
